@@ -101,11 +101,11 @@ namespace Sri
 /-- Stable insertion by algorithm rank (`Vec::sort` with `Ord` on the algorithm only). -/
 def insertH (h : Hash) : Integrity → Integrity
   | [] => [h]
-  | x :: xs => if h.algo.rank < x.algo.rank then h :: x :: xs else x :: insertH h xs
+  | x :: xs => if h.algo.rank ≤ x.algo.rank then h :: x :: xs else x :: insertH h xs
 
 def sort (hs : List Hash) : Integrity := hs.foldr insertH []
 -- foldr: later elements are inserted first, and `insertH` places an element before the first
--- strictly greater one, so equal-rank elements keep their original relative order.
+-- one that is not smaller, so equal-rank elements keep their original relative order.
 
 def isWs (c : UInt8) : Bool := c = 32 || (9 ≤ c && c ≤ 13)
 
